@@ -25,6 +25,13 @@ def collect(h):
     body = h.func_body(rel, r"^func \(recs \*appRecordsType\) putRecordsBatch\(", "putRecordsBatch")
     m = re.search(r"case\s+isReapply\s*,[^:]*:\s*for[^}]*\}\s*return\s+recs\.app\.config\.storage\.PutBatch\(batch\)", body, re.S)
     items.append(("rec_reapply_overwrites", "bool", "true" if m else "false", rel + " putRecordsBatch"))
+    # F-C03-1: applyRecs rebuilds every update over the stored row (not only when the in-memory origin is empty)
+    rel2 = "pkg/istructsmem/event-types.go"
+    ab = h.func_body(rel2, r"^func \(cud \*cudType\) applyRecs\(", "applyRecs")
+    if not re.search(r"load\(&rec\.originRec\)[^}]*\}\s*if err := rec\.build\(\)", ab, re.S):
+        raise h.Missing(f"{rel2}: applyRecs: load(&rec.originRec) followed by rec.build() not found")
+    guarded = re.search(r"if\s+[^{]*\{[^{}]*(//[^\n]*\n[^{}]*)*load\(&rec\.originRec\)", ab, re.S) is not None
+    items.append(("rec_apply_reloads_origin", "bool", "false" if guarded else "true", rel2 + " applyRecs"))
     body = h.func_body(rel, r"^func \(er \*implIEventReapplier\) ApplyRecords\(", "ApplyRecords")
     if not re.search(r"apply2\(er\.plogEvent,\s*nil,\s*true\)", body):
         raise h.Missing(f"{rel}: ApplyRecords does not call apply2(..., true)")
